@@ -25,7 +25,9 @@ PID = "C08"
 LEVEL = "fault_enumeration"
 RULE = (
     "roundtrip_resume: Hypothesis draws configurations {clustering, blobs/vector/scalar, pool in {None, pool-like object, 2}, kernel, resampler, d} x "
-    "save_every in {1,2,3} x seed; EVERY checkpoint of the run (all indices k and the final one) is loaded and resumed. "
+    "save_every in {1,2,3} x seed; EVERY checkpoint of the run (all indices k and the final one) is loaded and resumed; in half of the cases the "
+    "sampler object then lives on: a sibling run's checkpoint is loaded into it (it must then equal a fresh sampler that loaded the same file - "
+    "state, posterior(), next sample()), and it is rewound to one of its own checkpoints and writes checkpoints again. "
     "crash: for generated sampler states the save is executed in a forked child once per crash point: before and after every IO call "
     "(enumerated exhaustively from a dry run) and at byte offsets {1, half, last} inside every write, in two scenarios (final name absent / "
     "holding an older complete checkpoint). Non-trivial: checkpoint taken at beta>0 with >=3 batches; crash point strictly inside a payload write. "
@@ -134,10 +136,87 @@ def exec_rr(case):
                                 f"{n_total_res}, evidence {s3.evidence()[0]!r} vs reference {float(lz)!r})", sig={"kind": "resume-postconditions"})
             if float(snap["current"]["beta"]) > 0 and k0 >= 3:
                 nontrivial += 1
+        extra_classes = []
+        if case["seed"] % 2 == 0:
+            second_life(case, s, core, snaps, files, od)
+            extra_classes.append("second-life-of-the-same-object")
         return {"nontrivial": nontrivial > 0,
                 "classes": ["pool:%s" % case["pool"], "mode:" + case["mode"], "clustering" if case["clustering"] else "noclustering",
-                            "save_every=%d" % case["save_every"], "checkpoints=%d" % min(n_ck, 9)],
+                            "save_every=%d" % case["save_every"], "checkpoints=%d" % min(n_ck, 9)] + extra_classes,
                 "sample": {"case": case, "checkpoints": [os.path.basename(f) for f in files]}}
+
+
+def posterior_outputs(s):
+    out = []
+    for tr in (False, True):
+        o = lib_call(s.posterior, trim_importance_weights=tr, return_logw=True, what=f"posterior(trim_importance_weights={tr}, return_logw=True)")
+        out.append([np.asarray(a) for a in o])
+    return out
+
+
+def second_life(case, s, core, snaps, files, od):
+    """The sampler object that produced the checkpoints lives on: (a) a checkpoint of a SIBLING run (same configuration, other
+    seed - so the same extent at the same index) is loaded into it after it has been used (posterior() called, run finished); from
+    then on it must be indistinguishable from a fresh sampler that loaded the same file - state, posterior() outputs, and the next
+    sample() under the same stream; (b) it is rewound to one of its own earlier checkpoints and runs on, writing checkpoints again:
+    each file must restore exactly the state that existed when it was (re)written."""
+    with scratch_dir() as od2:
+        sib_case = dict(case, random_state=None if case["random_state"] is None else int(case["random_state"]) + 1)
+        np.random.seed(case["seed"] + 7)
+        b, _ = build(sib_case, od2)
+        bcore = core_of(b)
+        bsnaps = {}
+        wrap_method(bcore, "save_sampler_state", before=lambda path, *a, **k: bsnaps.__setitem__(str(path), history_snapshot(bcore.state)))
+        with quiet():
+            lib_call(b.run, n_total=64, progress=False, save_every=case["save_every"], what="Sampler.run(save_every=...) [sibling]")
+        bfiles = sorted(f for f in bsnaps if os.path.exists(f))
+        if not bfiles:
+            raise Violation("sibling run wrote no checkpoint", sig={"kind": "no-checkpoint"})
+        fb = bfiles[(case["seed"] // 2) % len(bfiles)]
+        posterior_outputs(s)  # the used object has answered queries before (whatever it caches is now warm)
+        with quiet():
+            lib_call(s.load_state, fb, what="Sampler.load_state [into a used sampler]")
+        diff = snapshots_equal(bsnaps[fb], history_snapshot(core.state), keys=KEYS)
+        if diff is not None:
+            raise Violation(f"checkpoint {os.path.basename(fb)} of a sibling run loaded into a sampler that had already run does not restore "
+                            f"the saved state: {diff}", sig={"kind": "roundtrip-used-object"})
+        fresh, _ = build(case, od2)
+        with quiet():
+            lib_call(fresh.load_state, fb, what="Sampler.load_state")
+        for (tr, a), (_, c) in zip(zip((False, True), posterior_outputs(s)), zip((False, True), posterior_outputs(fresh))):
+            if len(a) != len(c) or any(x.shape != y.shape or not np.array_equal(x, y, equal_nan=True) for x, y in zip(a, c)):
+                raise Violation(f"after loading {os.path.basename(fb)}, posterior(trim_importance_weights={tr}, return_logw=True) of the sampler "
+                                f"that had already run differs from that of a fresh sampler that loaded the same file "
+                                f"(shapes {[x.shape for x in a]} vs {[y.shape for y in c]})", sig={"kind": "used-vs-fresh-after-load"})
+        if case["pool"] != 2:
+            for obj in (s, fresh):
+                np.random.seed(case["seed"] + 11)
+                with quiet():
+                    lib_call(obj.sample, what="Sampler.sample [after load_state]")
+            diff = snapshots_equal(history_snapshot(core.state), history_snapshot(fresh.state), keys=KEYS)
+            if diff is not None:
+                raise Violation(f"after loading {os.path.basename(fb)}, one more sample() under the same stream gives a different state on the "
+                                f"sampler that had already run than on a fresh sampler: {diff}", sig={"kind": "used-vs-fresh-after-load"})
+    # (b) rewind the same object to one of its own checkpoints and let it write checkpoints again
+    own = [f for f in files if not f.endswith("_final.state") and os.path.exists(f)]
+    if not own:
+        return
+    f0 = own[(case["seed"] // 3) % len(own)]
+    snaps.clear()
+    np.random.seed(case["seed"] + 13)
+    with quiet():
+        lib_call(s.run, n_total=64, progress=False, resume_state_path=f0, save_every=case["save_every"],
+                 what="Sampler.run(resume_state_path=own earlier checkpoint, save_every=...) [same object]")
+    for f in sorted(snaps):
+        if not os.path.exists(f):
+            continue
+        s2, _ = build(case, od)
+        with quiet():
+            lib_call(s2.load_state, f, what="Sampler.load_state")
+        diff = snapshots_equal(snaps[f], history_snapshot(s2.state), keys=KEYS)
+        if diff is not None:
+            raise Violation(f"checkpoint {os.path.basename(f)} written after the same sampler object was rewound to {os.path.basename(f0)} does "
+                            f"not restore the state that existed when it was written: {diff}", sig={"kind": "roundtrip-after-rewind"})
 
 
 # ----------------------------------------------------------------------------- crash points
